@@ -567,6 +567,10 @@ func prGen(kind string) func(c *core.Ctx) {
 			{"m\n", map[string]string{"m": "(echo $(a\nb))"}}, {"echo $(( $(m) ))\n", map[string]string{"m": "a\nb"}}, {"m\n", map[string]string{"m": "for x in ${y:-a\nb}; do c; done"}},
 			{"m\n", map[string]string{"m": "case 'a\nb' in x) c;; esac"}}, {"m\n", map[string]string{"m": "while a >'f\ng'; do b; done"}}, {"m\n", map[string]string{"m": "echo $({ a\n})"}},
 			{"m\n", map[string]string{"m": "if a; then b; fi"}}, {"m; n\n", map[string]string{"m": "a |\nb", "n": "c &&\nd"}},
+			// arithmetic out of an alias value: parts that would be scanned differently without the blank between them
+			{"m\n", map[string]string{"m": "(( $a 1 ))"}}, {"m\n", map[string]string{"m": "echo $(( $a b ))"}}, {"m\n", map[string]string{"m": "(( $ $(a) ))"}}, {"m\n", map[string]string{"m": "(( $ $a ))"}},
+			{"m\n", map[string]string{"m": "(( $ ${a} ))"}}, {"m\n", map[string]string{"m": "(( $a+1 ))"}}, {"m\n", map[string]string{"m": "echo $(( ${a}1 $b _c $# 1 $1 0 ))"}}, {"m\n", map[string]string{"m": "(( 1 $ 2 ))"}},
+			{"m\n", map[string]string{"m": "echo $(( $a $b )) $(( `a` 1 )) $(( $(a) b ))"}},
 		} {
 			cs := prCase{Src: a.src, Aliases: a.al, Kind: "alias-made"}
 			if kind == "c05" {
@@ -588,6 +592,16 @@ func prGen(kind string) func(c *core.Ctx) {
 					cs.Kind = "writer-all-k"
 				}
 				core.Do(c, cs, c18Exec)
+			}
+		}
+		// witnesses of the open finding "a lone backslash at the end of the input is written as it
+		// stands, whatever the printer puts after it": one Config each (every key is listed)
+		if kind == "c05" {
+			for _, w := range []struct {
+				src string
+				cfg int
+			}{{">f a \\", 0}, {"cat >\\", 4}, {"cat <<\\", 0}, {">f a=\\", 0}} {
+				core.Do(c, prCase{Src: w.src, Cfgs: []int{w.cfg}, Kind: "witness"}, c05Exec)
 			}
 		}
 		// dedicated shapes, written as source
